@@ -213,3 +213,115 @@ def runs_under_lock(func_qual, callee_attr):
     if fn is not None:
         visit(fn, False)
     return not bad, 'calls of .%s() outside any lock: lines %r' % (callee_attr, bad)
+
+
+def calls_reachable(func_qual, depth=4):
+    """call expressions (unparsed callee text) made by a method and, transitively, by the self.<method>() it calls in the same class"""
+    tree, cls, fn = _func(func_qual)
+    if fn is None:
+        return None
+    seen, out, work = set(), [], [(fn, 0)]
+    while work:
+        f, d = work.pop()
+        if f.name in seen:
+            continue
+        seen.add(f.name)
+        for n in ast.walk(f):
+            if isinstance(n, ast.Call):
+                name = ast.unparse(n.func)
+                out.append((f.name, n.lineno, name))
+                if cls is not None and d < depth and isinstance(n.func, ast.Attribute) and isinstance(n.func.value, ast.Name) and n.func.value.id == 'self':
+                    for m in cls.body:
+                        if isinstance(m, (ast.FunctionDef, ast.AsyncFunctionDef)) and m.name == n.func.attr:
+                            work.append((m, d + 1))
+    return out
+
+
+def no_transport_reads(func_qual, readers=('recv', 'recvfrom', 'recv_into', 'read', 'readline', 'select')):
+    """the function (and the self-methods it calls) never reads from the transport: no call whose last name component is a receive primitive"""
+    calls = calls_reachable(func_qual)
+    if calls is None:
+        return True, 'no such function (nothing runs)'
+    bad = [(f, ln, c) for (f, ln, c) in calls if c.split('.')[-1] in readers]
+    return (not bad), ('reads from the transport: %r' % bad if bad else 'no receive primitive among %d calls' % len(calls))
+
+
+def loop_keeps(func_qual, names, ordinal=0):
+    """frame condition on a loop, decided on the AST: the loop (the ordinal-th while/for of the function, nested ones included) assigns none of `names`"""
+    _, _, fn = _func(func_qual)
+    if fn is None:
+        return False, 'no such function'
+    loops = [n for n in ast.walk(fn) if isinstance(n, (ast.While, ast.For))]
+    loops.sort(key=lambda n: (n.lineno, n.col_offset))
+    if ordinal >= len(loops):
+        return False, 'function has %d loops' % len(loops)
+    lp = loops[ordinal]
+    assigned = set()
+    for n in ast.walk(lp):
+        targets = []
+        if isinstance(n, ast.Assign):
+            targets = n.targets
+        elif isinstance(n, (ast.AugAssign, ast.AnnAssign)):
+            targets = [n.target]
+        elif isinstance(n, (ast.For, ast.comprehension)):
+            targets = [n.target]
+        elif isinstance(n, ast.NamedExpr):
+            targets = [n.target]
+        for t in targets:
+            for x in ast.walk(t):
+                if isinstance(x, ast.Name):
+                    assigned.add(x.id)
+    hit = sorted(assigned & set(names))
+    return (not hit), ('loop at line %d assigns %r' % (lp.lineno, hit) if hit else 'loop at line %d assigns %r only' % (lp.lineno, sorted(assigned)))
+
+
+def loop_leaves_when(func_qual, test_text, ordinal=0):
+    """the loop body contains, at its top level, `if <test_text>: break` (text compared after unparsing)"""
+    _, _, fn = _func(func_qual)
+    if fn is None:
+        return False, 'no such function'
+    loops = [n for n in ast.walk(fn) if isinstance(n, (ast.While, ast.For))]
+    loops.sort(key=lambda n: (n.lineno, n.col_offset))
+    if ordinal >= len(loops):
+        return False, 'function has %d loops' % len(loops)
+    for s in loops[ordinal].body:
+        if isinstance(s, ast.If) and ast.unparse(s.test) == test_text and any(isinstance(b, ast.Break) for b in s.body):
+            return True, 'line %d' % s.lineno
+    return False, 'no top-level `if %s: break` in the loop at line %d' % (test_text, loops[ordinal].lineno)
+
+
+def loop_has_fixed_deadline(func_qual, ordinal=0, clock=('time.time', 'time.monotonic')):
+    """the loop leaves by `if <now> > <deadline>: break` (or >=) at the top level of its body, where <now> is read from the clock inside the
+    loop (a name assigned from time.time() in the loop, or the call itself) and <deadline> is a name the loop never assigns.
+    Names are found, not prescribed."""
+    _, _, fn = _func(func_qual)
+    if fn is None:
+        return False, 'no such function'
+    loops = [n for n in ast.walk(fn) if isinstance(n, (ast.While, ast.For))]
+    loops.sort(key=lambda n: (n.lineno, n.col_offset))
+    if ordinal >= len(loops):
+        return False, 'function has %d loops' % len(loops)
+    lp = loops[ordinal]
+    assigned, from_clock = set(), set()
+    for n in ast.walk(lp):
+        if isinstance(n, ast.Assign):
+            for t in n.targets:
+                for x in ast.walk(t):
+                    if isinstance(x, ast.Name):
+                        assigned.add(x.id)
+                        if isinstance(n.value, ast.Call) and ast.unparse(n.value.func) in clock and isinstance(t, ast.Name):
+                            from_clock.add(x.id)
+        elif isinstance(n, (ast.AugAssign, ast.AnnAssign)):
+            for x in ast.walk(n.target):
+                if isinstance(x, ast.Name):
+                    assigned.add(x.id)
+    for s in lp.body:
+        if isinstance(s, ast.If) and isinstance(s.test, ast.Compare) and len(s.test.ops) == 1 and isinstance(s.test.ops[0], (ast.Gt, ast.GtE)) \
+                and any(isinstance(b, ast.Break) for b in s.body):
+            left, right = s.test.left, s.test.comparators[0]
+            now_ok = (isinstance(left, ast.Name) and left.id in from_clock) or (isinstance(left, ast.Call) and ast.unparse(left.func) in clock)
+            if now_ok and isinstance(right, ast.Name) and right.id not in assigned:
+                return True, 'line %d: leaves when %s exceeds %s, which the loop does not assign' % (s.lineno, ast.unparse(left), right.id)
+            if now_ok and isinstance(right, ast.Name):
+                return False, 'line %d: the deadline %s is re-assigned inside the loop' % (s.lineno, right.id)
+    return False, 'no `if <clock value> > <fixed deadline>: break` at the top level of the loop at line %d' % lp.lineno
